@@ -24,7 +24,7 @@ RULE = ('accepted generated models (gen_model.py) are re-spaced with layout nois
         'length, start not after end (structural elements: line 1, columns in [0,1]); (b) some error lies in the faulted '
         'block; (c) for non-declaring labels every error lies in it; (d) for an undeclared identifier some $Unknown_identifier '
         'error covers exactly the identifier. Non-trivial: the fault is not in the first block of its kind, or not on the first '
-        'line of its block, or the block carries CRLF/continuation/comment noise; distinct = (model, block path, token, fault).')
+        'line of its block, or the block carries CRLF/continuation/comment noise; distinct = (model, block path, token, fault). The same models are also rendered as XTA text (with layout noise) and faulted at spread token positions: there every diagnostic must carry the empty path, a line of the file, columns inside that line, start before end, an offset on the reported line, and an undeclared identifier must be covered exactly.')
 
 
 def eval_case(xml_mut, block_path, block_kind, block_text, fault, info, diags, all_block_texts):
@@ -73,6 +73,30 @@ def eval_case(xml_mut, block_path, block_kind, block_text, fault, info, diags, a
         if not ok:
             got = [(d['msg'], block_text[d['off']:d['eoff']] if d['path'] == block_path else d['path']) for d in errors][:3]
             return ('d', 'undeclared identifier %s in %s: no $Unknown_identifier error covers exactly the identifier; got %r' % (info['ident'], block_path, got), '$Unknown_identifier')
+    return None
+
+
+def eval_xta_case(text_mut, fault, info, diags):
+    """XTA input: the whole file is one block with an empty path; lines are file lines. -> None or (rule, what, msgclass)"""
+    lines = text_mut.split('\n')
+    for kind, lst in (('error', diags['errors']), ('warning', diags['warnings'])):
+        for d in lst:
+            msgc = d['msg'].split(':')[0].split(' ')[0]
+            if d['path'] != '' or d['epath'] != '':
+                return ('xta-path', '%s %r of an XTA text carries the path %r' % (kind, d['msg'], d['path']), msgc)
+            if not (1 <= d['line'] <= d['eline'] <= len(lines)):
+                return ('xta-line', '%s %r: lines %d..%d but the text has %d line(s)' % (kind, d['msg'], d['line'], d['eline'], len(lines)), msgc)
+            if not (0 <= d['col'] <= len(lines[d['line'] - 1])) or not (0 <= d['ecol'] <= len(lines[d['eline'] - 1])):
+                return ('xta-col', '%s %r: columns %d / %d on lines of length %d / %d' % (kind, d['msg'], d['col'], d['ecol'], len(lines[d['line'] - 1]), len(lines[d['eline'] - 1])), msgc)
+            if (d['line'], d['col']) > (d['eline'], d['ecol']):
+                return ('xta-order', '%s %r: start %d:%d after end %d:%d' % (kind, d['msg'], d['line'], d['col'], d['eline'], d['ecol']), msgc)
+            if 0 <= d['off'] <= len(text_mut) and F.line_col(text_mut, d['off'])[0] != d['line']:
+                return ('xta-offset', '%s %r: offset %d is on line %d, reported line %d' % (kind, d['msg'], d['off'], F.line_col(text_mut, d['off'])[0], d['line']), msgc)
+    if fault == 'undeclared':
+        ok = any(d['msg'].startswith('$Unknown_identifier') and text_mut[d['off']:d['eoff']] == info['ident'] for d in diags['errors'])
+        if not ok:
+            got = [(d['msg'], text_mut[d['off']:d['eoff']]) for d in diags['errors']][:3]
+            return ('xta-d', 'undeclared identifier %s: no $Unknown_identifier error covers exactly the identifier; got %r' % (info['ident'], got), '$Unknown_identifier')
     return None
 
 
@@ -183,6 +207,73 @@ def worker(chk, wi, nw):
 
     n = 8 if chk.tier == 'quick' else 90
     common.run_hypothesis(chk, stats, st.tuples(M.models(need_clean=True, max_templates=2), st.integers(0, 10 ** 6)), test, n, chk.seed * 1000 + wi, shrink=False)
+
+    def run_xta(text):
+        r = orc.request([dict(entry='xta-buffer', builder='document', newxta=1, input=text, dump='diag')])
+        return None if 'crash' in r else r['steps'][0]
+
+    def test_xta(args):
+        m, seed = args
+        rnd = random.Random(seed)
+        mode = rnd.choice(['plain', 'noise', 'noise', 'crlf'])
+        text = m.xta()
+        if mode != 'plain':
+            text = F.add_noise(text, lambda i, n_: rnd.choice([None, None, None] + list(range(n_))), crlf=(mode == 'crlf'), lead=rnd.choice(['', '\n', '\n\n  ']))
+        r0 = run_xta(text)
+        if r0 is None or r0['errors'] or r0.get('exc'):
+            stats.extra['xta_models_not_accepted_after_noise'] += 1
+            return None
+        stats.extra['xta_models'] += 1
+        toks = T.tokens(text)
+        ntok = len(toks)
+        npos = 25 if chk.tier == 'quick' else 120
+        # tokens inside a guard / assign / sync / probability section of a transition (uses, never declarations)
+        in_label = []
+        inside = False
+        for tk in toks:
+            if tk[1] in ('guard', 'assign', 'sync', 'probability'):
+                inside = True
+                in_label.append(False)
+                continue
+            if tk[1] == ';':
+                inside = False
+            in_label.append(inside)
+        positions = sorted(set(int(i * (ntok - 1) / max(1, npos - 1)) for i in range(npos))) if ntok > npos else list(range(ntok))
+        for ti in positions:
+            for fault in ('undeclared', 'drop-token', 'unbalanced-open', 'unbalanced-close', 'stray-token', 'type-error', 'unterminated-comment'):
+                if fault == 'undeclared' and not in_label[ti]:
+                    continue      # elsewhere an identifier may be a declaring occurrence: renaming it breaks its users, not itself
+                res = F.apply_fault(text, fault, ti, variant=rnd.randrange(100))
+                if res is None:
+                    continue
+                text_mut, info = res
+                r = run_xta(text_mut)
+                if r is None:
+                    stats.extra['crashes_seen_(C01)'] += 1
+                    continue
+                if r.get('exc'):
+                    stats.extra['exceptions_seen'] += 1
+                    continue
+                if not r['errors']:
+                    stats.evaluations += 1
+                    stats.extra['mutation_was_not_a_fault'] += 1
+                    continue
+                line_of_fault = text.count('\n', 0, toks[ti][2]) + 1
+                stats.case('xta|%s|%d|%s|%d' % (text, ti, fault, seed), nontrivial=line_of_fault > 1, classes=['block:xta-file', 'fault:' + fault, 'noise:' + mode],
+                           sample={'input': 'xta', 'fault': fault, 'line': line_of_fault, 'errors': [(d['msg'], d['line'], d['col']) for d in r['errors']][:3]})
+                v = eval_xta_case(text_mut, fault, info, r)
+                if v:
+                    rule, what, msgc = v
+                    d = {'rule': rule, 'block': 'xta-file', 'fault': fault, 'msg': msgc}
+                    case = {'kind': 'c06-xta', 'xta': text_mut, 'fault': fault, 'info': info}
+                    if chk.is_known(d):
+                        chk.report(stats, d, what, case)
+                    else:
+                        return (d, what, case)
+        return None
+
+    common.run_hypothesis(chk, stats, st.tuples(M.models(for_xta=True, need_clean=True, max_templates=2), st.integers(0, 10 ** 6)), test_xta, 3 if chk.tier == 'quick' else 40,
+                          chk.seed * 1000 + 300 + wi, shrink=False)
     orc.close()
     return stats
 
@@ -190,6 +281,12 @@ def worker(chk, wi, nw):
 def confirm(case):
     orc = oracle.Oracle(os.path.join(common.WORK, 'C06', 'confirm'), cpu_limit=30)
     try:
+        if case.get('kind') == 'c06-xta':
+            r = orc.request([dict(entry='xta-buffer', builder='document', newxta=1, input=case['xta'], dump='diag')])
+            if 'crash' in r:
+                return None
+            v = eval_xta_case(case['xta'], case['fault'], case['info'], r['steps'][0])
+            return ({}, v[1]) if v else None
         r = orc.request([dict(entry='xml-buffer', builder='document', newxta=1, input=case['xml'], dump='diag')])
         if 'crash' in r:
             return None
